@@ -410,8 +410,12 @@ def addMember (ms : List Member) : Member → List Member
   | .base b => setMember ms (.base b)
   | .struct n bs => if (ms.map Member.name).contains n then ms else ms ++ [.struct n bs]
 
-/-- first loop of `apply_projection` for one projection path -/
-def collect1 (src : Dataset) (out : List Var) : ProjItem → Except Exc (List Var)
+/-- names `DatasetType.__getitem__` does not simply look up: the empty name is the dataset
+    itself, a name with `/` is walked as a DAP4 path -/
+def oddName (n : Str) : Bool := n = [] || n.contains '/'
+
+/-- first loop of `apply_projection` for one projection path (plain names) -/
+def collect1Core (src : Dataset) (out : List Var) : ProjItem → Except Exc (List Var)
   | .call _ => .error .valueError        -- unpacking a character into `(name, slice_)`
   | .path [] => .ok out
   | .path [(n, _)] =>
@@ -471,6 +475,14 @@ def collect1 (src : Dataset) (out : List Var) : ProjItem → Except Exc (List Va
           | some _ => .error .unspecified
     | some _ => .error .unspecified
   | .path _ => .error .unspecified
+
+/-- first loop of `apply_projection` for one projection path; paths of two or more names with an
+    empty name or a `/` in a name are not resolved -/
+def collect1 (src : Dataset) (out : List Var) (p : ProjItem) : Except Exc (List Var) :=
+  match p with
+  | .path (a :: b :: rest) =>
+    if (a :: b :: rest).any (fun x => oddName x.1) then .error .unspecified else collect1Core src out p
+  | _ => collect1Core src out p
 
 /-- "fix sequence data": the rows of the source sequence restricted to the visible columns -/
 def fixSeqData (src : Dataset) : Var → Except Exc Var
